@@ -736,7 +736,9 @@ def scenarios():
           ["mkpbc", [(0, 1), (2, -2)], "<=", 1], ["opbaddconstraint", 0, 8, True], ["mkpbc", [(1, 0)], ">=", 1],
           ["opbaddconstraint", 0, 10, True], ["opbaddconstraint", 0, 10, False], ["mklist", [1, -2]], ["opbaddclause", 0, 13, True],
           ["setitem", 13, 0, 4], ["opbcard", 0, 13, "<=", 1, True], ["opbcard", 0, 13, ">=", 1, True], ["opbcard", 0, 13, "==", 1, True],
-          ["mklist", []], ["opbaddclause", 0, 19, True]]
+          ["mklist", []], ["opbaddclause", 0, 19, True],
+          ["mkpbc", [(2, 1), (1, -3)], ">=", 2], ["opbaddconstraint", 0, 21, True], ["pbcset", 21, 0, 6, 2],
+          ["mkpbc", [(1, 1), (1, 2)], "==", 1], ["opbaddconstraint", 0, 24, False], ["pbcset", 24, 1, 3, 3]]
     out.append(("opb/storage", ob))
     # live views, slices, copies
     vw = [["newcnf", None], ["addclausegen", 0, [1, 2], True, "tuple"], ["addclausegen", 0, [-1], True, "tuple"], ["view", 0],
@@ -774,6 +776,43 @@ def build(suite, info):
         raise ValueError("unknown suite " + suite)
     prog = [list(ins) for ins in info["prog"]]
     return mk_case(suite, info.get("cls", "replay"), prog)
+
+
+def search(ctx, case):
+    """the correspondence broke on this history (e.g. the sharing graph differs): look for a failing INPUT of the property
+    among its extensions — after every prefix, write into every list / constraint object a register holds (and into every
+    copy a formula hands out), and let the oracle check that nothing else moves"""
+    prog = case.info["prog"]
+    tried = 0
+    for n in range(len(prog), 0, -1):
+        prefix = prog[:n]
+        _, regs = run_real(prefix)
+        kd = kinds_of(prefix, regs)
+        exts = []
+        for l in kd["I"]:
+            if regs[l]:
+                exts.append([["setitem", l, 0, 77]])
+            exts.append([["append", l, 78]])
+        for c in kd["C"]:
+            if len(regs[c]) > 2:
+                exts.append([["pbcset", c, 0, 79, 80]])
+        for f in kd["F"]:
+            if len(regs[f]):
+                exts.append([["getitem", f, 0], ["setitem", n, 0, 81]])
+                exts.append([["view", f], ["viewget", n, 0], ["setitem", n + 1, 0, 82]])
+            exts.append([["hdrset", f, "probe", "1"]])
+            exts.append([["addclausegen", f, [83], True, "tuple"]])
+        for o in kd["O"]:
+            if len(regs[o]):
+                exts.append([["opbgetitem", o, 0], ["pbcset", n, 0, 84, 85]])
+        for e in exts:
+            tried += 1
+            if tried > 400:
+                return None
+            r = oracle_of(prefix + e)()
+            if r is not None:
+                return r
+    return None
 
 
 def cases(ctx):
